@@ -415,3 +415,41 @@ def _r5(ctx, P):
                 ok = "param:3" in fx.tags(tm["args"][1]) and "param:4" in fx.tags(tm["args"][2])
         ctx.ob("R5", "LpgStore::%s" % acc, ok,
                what="LpgStore::%s must select the version with VersionChain::visible_to(epoch, tx_id) of its own parameters" % acc, where=f.loc())
+    # ---- R9 the viewing epoch and the transaction id travel together: every call that hands a transaction context on
+    # (Planner::with_context, QueryProcessor / operator ::with_tx_context) takes the epoch from the same context the
+    # transaction id comes from. A transaction id paired with the current epoch reads at the latest epoch instead of the
+    # transaction's snapshot (own writes still visible, so nothing looks wrong inside one session).
+    def ctx_sources(tags):
+        out = set()
+        for t in tags:
+            if t == "call:Session::get_transaction_context":
+                out.add("session-context")
+            elif t.startswith("cell:") and t.endswith(".tx_context"):
+                out.add(t[5:])
+            elif t.startswith("cell:") and t.endswith((".tx_id", ".viewing_epoch")):
+                out.add(t[5:].rsplit(".", 1)[0] + ".{viewing_epoch,tx_id}")
+        return out
+    n9 = 0
+    for f in sorted(P.fns.values(), key=lambda f: f.id):
+        if f.krate not in ("grafeo_engine", "grafeo_core") or "::tests::" in f.id:
+            continue
+        fx = None
+        for bi, t in f.calls():
+            c = callee_name(t)
+            if c.endswith("Planner::with_context") and len(t["args"]) == 4:
+                ep, tx = t["args"][3], t["args"][2]
+            elif c.endswith("::with_tx_context") and len(t["args"]) == 3:
+                ep, tx = t["args"][1], t["args"][2]
+            else:
+                continue
+            fx = fx or FlowCx(P, f)
+            txs = ctx_sources(fx.tags(tx))
+            if not txs:
+                continue      # no transaction id is handed on here (constant None)
+            n9 += 1
+            eps = ctx_sources(fx.tags(ep))
+            ctx.ob("R9", "%s->%s" % (short_id(f.id), short_id(c)), bool(txs & eps),
+                   what="%s hands the transaction id of %s to %s but takes the viewing epoch from %s: inside a transaction the query "
+                        "reads at another epoch than the transaction's snapshot" % (short_id(f.id), sorted(txs), short_id(c),
+                        sorted(eps) or sorted(x for x in fx.tags(ep) if x.startswith("call:"))[:3]), where=f.loc(t["line"]))
+    ctx.floor("R9", n9, 15, "calls that hand a transaction context on")
